@@ -256,7 +256,7 @@ def _rp(fn, **kw):
     return rp
 
 
-def _result_check(c, label, r, val, w, ns):
+def _result_check(c, label, r, val, w, ns, operands=()):
     SI = ns["StridedInterval"]
     if not isinstance(r, SI):
         c.fail(label + "/type", f"result is {type(r).__name__}, not a StridedInterval")
@@ -270,6 +270,12 @@ def _result_check(c, label, r, val, w, ns):
     c.watch["ref"] = val
     c.check(label + "/gamma", member(val, r, w), "reference result of member operands not in gamma(result)")
     c.check(label + "/wf", wf(r), "result interval is not well-formed", kind="invariant")
+    # name discipline: StridedInterval.eq answers True for two intervals of the same name ("they are the same guy"), so a result may carry
+    # an operand's name only if it always has that operand's value
+    for o, oval in operands:
+        if o is not None and getattr(r, "name", None) is not None and r.name == o.name:
+            c.check(label + "/name-only-if-same-value", val == oval,
+                    "the result carries the name of an operand although its value can differ from the operand's: eq() of the two answers a definite True")
 
 
 def ob_binary(op, w, tier="quick", iw=None, known=None, replay=None):
@@ -288,7 +294,7 @@ def ob_binary(op, w, tier="quick", iw=None, known=None, replay=None):
         if not ok:
             return "raised"
         val = _bvop(BIN_REF[op], w)(x, y)
-        _result_check(c, f"{op}", r, val, w, ns)
+        _result_check(c, f"{op}", r, val, w, ns, operands=((a, x), (b, y)))
         return "ret"
 
     return explore(body, _opts(w, tier, replay=_rp("replay_transfer", op=op, w=w)))
@@ -306,7 +312,7 @@ def ob_unary(op, w, tier="quick", iw=None, replay=None):
         if not ok:
             return "raised"
         val = _bvop(UN_REF[op], w)(x)
-        _result_check(c, f"{op}", r, val, w, ns)
+        _result_check(c, f"{op}", r, val, w, ns, operands=((a, x),))
         return "ret"
 
     return explore(body, _opts(w, tier, replay=_rp("replay_transfer", op=op, w=w)))
@@ -378,7 +384,7 @@ def ob_resize(op, w, tier="quick", iw=None, wb=None):
         ok, r = _call(c, op, f)
         if not ok:
             return "raised"
-        _result_check(c, op, r, val, wr, ns)
+        _result_check(c, op, r, val, wr, ns, operands=((a, x), (b, y if b is not None else None)))
         return "ret"
 
     return explore(body, _opts(max(w, wb_max), tier, replay=_rp("replay_resize", op=op, w=w)))
@@ -410,6 +416,13 @@ def replay_resize(task, failure):
     except Exception as e:  # noqa
         return {"reproduced": True, "text": f"{op} on {a} raised {type(e).__name__}: {e}"}
     mem = py_members(r)
+    if "name-only-if-same-value" in str(failure.get("label")):
+        bad = r.name == a.name and ref != x
+        cmp = ""
+        if bad and op in ("zero_extend", "sign_extend"):
+            other = a.zero_extend(wr) if op == "sign_extend" else a.sign_extend(wr)
+            cmp = f"; eq() with {'zero' if op == 'sign_extend' else 'sign'}_extend of the same interval answers {other.eq(r).value} although member x={x} gives {ref} vs {x if op == 'sign_extend' else _tosigned(x, w) % (1 << wr)}"
+        return {"reproduced": bad, "text": f"{call} = {r!r} is named {r.name!r} like its operand; member x={x} becomes {ref}" + cmp}
     bad = r.bits != wr or ref not in mem
     return {"reproduced": bad, "text": f"{call} = {r!r} ({r.bits} bits) members={sorted(mem)}; member x={x} gives {ref}",
             "script": f"from claripy.backends.backend_vsa import StridedInterval as SI\nprint({call})"}
